@@ -185,13 +185,13 @@ def run_case(case):
         res["evals"] += 1
         if state["uses"] > 0:
             res["nontrivial"].append(csig + "#" + ">".join(state["trace"][-4:]) + ">" + label)
-        d = diff_tables(t_fresh, t)
+        d = diff_tables(t_fresh, t, strict_types=True)
         if d is not None:
             V("C11:differs-from-fresh-objects", f"use #{state['uses'] + 1} ({label}) after history {state['trace']}: {d}")
         if state["first"] is None:
             state["first"] = t
         else:
-            d = diff_tables(state["first"], t)
+            d = diff_tables(state["first"], t, strict_types=True)
             if d is not None:
                 V("C11:differs-from-first-run", f"use #{state['uses'] + 1} ({label}) after history {state['trace']}: {d}")
         state["uses"] += 1
